@@ -174,6 +174,15 @@ def check(ctx):
         for name in ("toma", "topa"):
             for (s, e) in ((0, 5), (L + 1, L + 2), (5, L + 1), (7, 3), (-3, 5)):
                 runs.append(("%s: window %d..%d on a %d-base reference" % (name, s, e, L), base[name] + ["--start", str(s), "--end", str(e)], None))
+            # one bad coordinate on its own, and together with the options that change how the window is applied
+            extras = [[], ["--pad"], ["--wrap", "7"]] if name == "toma" else [[], ["--wrap", "7"], ["--skip-insertions"]]
+            for x in extras:
+                for s in (0, L + 1, -3):
+                    runs.append(("%s: --start %d alone %s on a %d-base reference" % (name, s, " ".join(x), L), base[name] + ["--start", str(s)] + x, None))
+                    runs.append(("%s: --start %d --end %d %s on a %d-base reference" % (name, s, L, " ".join(x), L), base[name] + ["--start", str(s), "--end", str(L)] + x, None))
+                for e in (0, L + 1, -2):
+                    runs.append(("%s: --end %d alone %s on a %d-base reference" % (name, e, " ".join(x), L), base[name] + ["--end", str(e)] + x, None))
+                    runs.append(("%s: --start 1 --end %d %s on a %d-base reference" % (name, e, " ".join(x), L), base[name] + ["--start", "1", "--end", str(e)] + x, None))
         # annotation suffix, topranking without options
         odd = W("anno.txt", open(gff, "rb").read())
         runs.append(("variants: unrecognised annotation suffix", sub(base["variants gff"], gff, odd), None))
